@@ -67,4 +67,31 @@ theorem pops_bounded {s : BSt} (hA : PA.Inv s) (hF : FI none [] s) (hG : GI s) (
     rw [this, List.countP_append, List.countP_append]
     omega
 
+
+/-- records ever accepted by any queue -/
+def accTotal (s : BSt) : Nat := (s.ths.map (fun t => t.accepted.length)).sum
+
+/-- while anything is pending, fewer events have been popped than records were accepted (no hypothesis on the configuration) -/
+theorem pops_lt_total {s : BSt} (hA : PA.Inv s) (hF : FI none [] s) {i : Nat} {st : Stmt} (hst : st ∈ chain (s.th i)) :
+    s.popLog.length < accTotal s := by
+  have e1 : s.popLog.length = (s.ths.map (fun t => t.popped.countP (fun _ => true))).sum := by
+    have := hA.p (fun _ => true)
+    rw [List.countP_eq_length.mpr (fun _ _ => rfl)] at this
+    exact this
+  rw [e1]
+  unfold accTotal
+  have hlt : i < s.ths.length := by
+    apply Classical.byContradiction; intro hn
+    rw [th_lt_or_default s i (by omega)] at hst; cases hst
+  apply sum_map_lt _ _ _ _ (s.th i) (th_mem s hlt)
+  · rw [hF.cons i, List.append_assoc, List.length_append, List.countP_eq_length.mpr (fun _ _ => rfl)]
+    have : 0 < ((s.th i).buf ++ (s.th i).qStmts).length := List.length_pos_iff.mpr (by intro he; unfold chain at hst; rw [he] at hst; cases hst)
+    omega
+  · intro t ht
+    obtain ⟨j, _, hj⟩ := mem_ths s ht
+    have := hF.cons j
+    rw [hj] at this
+    rw [this, List.countP_eq_length.mpr (fun _ _ => rfl)]
+    simp only [List.length_append]; omega
+
 end Backend.PB
